@@ -29,8 +29,8 @@ type scenario6 struct {
 	Cfg       int        `json:"cfg"` // client logging configuration (cli.LogOpts6)
 }
 
-var solKinds = []string{"advertise", "advertise", "advertise-wrongxid", "reply", "reply-wrongxid", "undecodable", "advertise-nosid", "relay-typed", "relay-wrapped", "silence"}
-var req6Kinds = []string{"reply", "reply", "reply-wrongxid", "advertise-samexid", "undecodable", "relay-wrapped", "silence"}
+var solKinds = []string{"advertise", "advertise", "advertise-wrongxid", "reply", "reply-wrongxid", "undecodable", "empty", "one-octet", "advertise-nosid", "relay-typed", "relay-wrapped", "silence"}
+var req6Kinds = []string{"reply", "reply", "reply-wrongxid", "advertise-samexid", "undecodable", "empty", "one-octet", "relay-wrapped", "silence"}
 
 type inj6 struct {
 	nonce  int
@@ -40,6 +40,7 @@ type inj6 struct {
 	valid  bool
 	retSeq int64
 	tree   *tree.Node
+	taken  bool // a read of the client's took it off the wire before the client was closed
 }
 
 func tlv6(code int, v []byte) []byte {
@@ -84,6 +85,12 @@ func dgram6(kind string, xid [3]byte, cid []byte, nonce int, idx int) (*inj6, []
 	switch kind {
 	case "undecodable":
 		b = b[:len(b)-3]
+		in.valid = false
+	case "empty": // a datagram without payload
+		b = []byte{}
+		in.valid = false
+	case "one-octet":
+		b = b[:1]
 		in.valid = false
 	case "relay-typed":
 		b = append([]byte{13}, make([]byte, 33)...)
@@ -216,7 +223,10 @@ func run6(t *testing.T, sc scenario6) (o out6) {
 							mu.Lock()
 							o.inj[n] = in
 							mu.Unlock()
-							conn.Inject(sconn.Datagram{B: b, Nonce: n, Class: re.Kind, From: &net.UDPAddr{IP: net.ParseIP("fe80::1"), Port: 547}})
+							ok := conn.Inject(sconn.Datagram{B: b, Nonce: n, Class: re.Kind, From: &net.UDPAddr{IP: net.ParseIP("fe80::1"), Port: 547}})
+							mu.Lock()
+							in.taken = ok
+							mu.Unlock()
 						}()
 					}
 				}
@@ -263,6 +273,12 @@ func judge6(r *mon.Rec, t *testing.T, sc scenario6) {
 		return
 	}
 	bad := func(key, msg string, a ...any) { r.Violate("C13:v6:"+key, fmt.Sprintf(msg, a...), sc) }
+	for _, in := range o.inj {
+		if !in.taken {
+			bad("datagram-never-read", "datagram %d (kind %s) was still unread when the client was closed: the client had stopped reading", in.nonce, in.kind)
+			return
+		}
+	}
 	var sols, reqs []tx6
 	for _, x := range o.tx {
 		if x.tree == nil {
